@@ -23,6 +23,29 @@ def check(tier, seed):
     run.trusted("the parser as established by C01/C02; Node.__eq__ as structural equality")
     run.assume("no deductive obligation: the printer's string encoders are json.dumps / str.replace (outside the VC generator's reach); "
                "the round-trip law is checked as a run-time contract on the enumerated corpus only")
+    # static slot coverage of the printer (for all trees): every slot of every node kind is read by its print method
+    import contracts.parser_map as PM
+    from py_gql.lang.printer import ASTPrinter
+    from vf import printstatic
+    backend = "print-method slot analysis"
+    try:
+        pobs = printstatic.obligations(ASTPrinter, PM.ORDER)
+    except printstatic.Unsupported as e:
+        pobs = []
+        run.cov["degraded_functions"].append({"function": "ASTPrinter", "reason": str(e)})
+    if pobs:
+        run.cov["functions_under_contract"].append("ASTPrinter.print_* (slot coverage)")
+    for o in pobs:
+        run.cov["obligations"] += 1
+        run.cov["backends"][backend] = run.cov["backends"].get(backend, 0) + 1
+        if o["holds"]:
+            run.cov["discharged"] += 1
+            continue
+        before = len(run.violations)
+        run.violation(o["id"], o["detail"], {"parent": o["cls"], "slot": o["slot"], "detail": o["detail"]}, False,
+                      extra={"obligation": o["id"], "solver": backend, "solver_status": "refuted"})
+        if len(run.violations) == before:
+            run.cov["refuted_known"] += 1
     return run.finish("other", "bounded stand-in only: round-trip / fix-point / determinism contracts evaluated on every tree of the "
                                "enumerated corpus under 5 indent settings; not a proof",
                       checker_cmd="./check C03 --tier %s" % tier)
